@@ -534,6 +534,9 @@ func (conf *Config) setKey(key string, change string) {
 
 func (conf *Config) set(key string, change string) error {
 	if isCost(key) {
+		if _, ok := Settings[key]; !ok {
+			return fmt.Errorf("unknown key %s, can't set value %v", key, change)
+		}
 		value, err := strconv.Atoi(change)
 		if err != nil {
 			return fmt.Errorf("cannot convert key %s value %v to int64: %v", key, change, err)
@@ -564,7 +567,7 @@ func (conf *Config) set(key string, change string) error {
 		if err != nil {
 			return fmt.Errorf("cannot convert key %s value %v to state.balance: %v", key, change, err)
 		}
-		vCoin, err := currency.ParseZCN(value)
+		vCoin, err := config.ParseZCN(value)
 		if err != nil {
 			return err
 		}
@@ -719,9 +722,14 @@ func (conf *Config) get(key Setting) interface{} {
 }
 
 func (conf *Config) update(changes config.StringMap) error {
-	for key, value := range changes.Fields {
+	seen := make(map[string]bool, len(changes.Fields))
+	for _, key := range config.SortedKeys(changes.Fields) {
 		trimmedKey := strings.TrimSpace(key)
-		trimmedValue := strings.TrimSpace(value)
+		trimmedValue := strings.TrimSpace(changes.Fields[key])
+		if seen[trimmedKey] {
+			return fmt.Errorf("key %s given twice", trimmedKey)
+		}
+		seen[trimmedKey] = true
 		if err := conf.set(trimmedKey, trimmedValue); err != nil {
 			return err
 		}
@@ -769,6 +777,18 @@ func (ssc *StorageSmartContract) updateSettings(
 	err = conf.update(*updateChanges)
 	if err != nil {
 		return "", common.NewError("update_settings, updating settings", err.Error())
+	}
+
+	// after "demeter" the updated config is saved right away: validate it before anything is written
+	if err := cstate.WithActivation(balances, "demeter", func() error {
+		return nil
+	}, func() error {
+		if err := conf.validate(); err != nil {
+			return common.NewError("update_settings_validate", err.Error())
+		}
+		return nil
+	}); err != nil {
+		return "", err
 	}
 
 	_, err = balances.InsertTrieNode(settingChangesKey, updateChanges)
